@@ -30,6 +30,7 @@ def verify_functions(qualnames, repo=None, second_backend=False, th=None, reg=No
         try:
             ex = Exec(th, reg, q, repo)
             obls = ex.verify()
+            info['returning_paths'] = getattr(ex, 'returning_paths', None)
             info['obligations'] = obls
             info['pre_hyps'] = ex.pre_hyps
             info['vac_points'] = [('%s: %s' % (q, lab), h) for lab, h in ex.vac_points]
@@ -65,8 +66,12 @@ def verify_functions(qualnames, repo=None, second_backend=False, th=None, reg=No
             if q in vac_bad:
                 info['status'] = 'vacuous'
                 info['reason'] = 'contradictory hypotheses at: ' + '; '.join(vac_bad[q])
-            elif not obls:
+            elif not obls and reg.contracts[q].ensures:
                 info['status'] = 'no-obligations'
+            elif not obls:
+                # a contract without postconditions whose every `raise`/assert lies on a path pruned by constant folding
+                # (e.g. the string-key variant of validate_diff_entry): nothing to discharge, provided some path returns
+                info['status'] = 'proved' if info.get('returning_paths') else 'no-obligations'
             elif all(o.status == 'unsat' for o in obls):
                 info['status'] = 'proved'
             else:
